@@ -16,6 +16,18 @@ CHECKS = {
  "C04": ("pv-codec", "exploration", "bounded-exhaustive boundary family + proptest; cborx-built Conway values/bodies; zero=>Err, admissible=>Ok(value) oracle",
    "Every (site x sign x boundary magnitude x admissible head width x sibling slot) combination is enumerated, plus random magnitudes: the integer is decoded as PositiveCoin / NonZeroInt directly and at the asset-quantity, mint, collateral-return and donation positions of Conway values and transaction bodies written by the independent cborx writer. Oracle in both directions: zero must be rejected, admissible non-zero must be accepted with exactly the encoded number, and no Ok result may hold 0.",
    "Synthetic bodies contain only the mandatory fields plus the probed one; out-of-range magnitudes only need to not produce a zero."),
+ "C24": ("pv-net2", "exploration", "exhaustive (state class x message) table + all specification-following sequences <= 8 + random walks, against hand-transcribed specification tables",
+   "For each of the eight P2P-stack protocol machines the complete (state class x message variant) table is enumerated with two payload variations each, then every message sequence of length <= 6 (quick) / 8 (thorough) that follows specification edges from the initial state with the full table re-checked at every visited state, then random walks to length 40. Oracle: State::apply is Ok exactly on specification edges and returns exactly the state the specification prescribes including the carried data (states are compared with ==, using harness-chosen content types that implement PartialEq). Known deviations are stepped over by substituting the specification's state, so the search continues behind them.",
+   "Trusts the specification tables in harness/crates/pv-net2/src/spec.rs (transcribed from the Ouroboros network specification; Leios from the module documentation)."),
+ "C27": ("pv-net2", "exploration", "stateful model-based exploration: fingerprint-de-duplicated BFS over op sequences + random long sequences; set-invariant and banned-history oracle",
+   "The harness plays the network interface of InitiatorBehavior (events are applied only when a real connection could deliver them). All op sequences up to depth 6/8 (3 peers, limits 2/1/1, error threshold 0) and 8/10 (2 peers, limits 3/2/1) are explored breadth-first with de-duplication on an abstract fingerprint (peer states, sets, interface model), plus random sequences of length 200 over 20 and 6 peers. After every op: the four peer sets pairwise disjoint, within the configured limits, and no Connect command for a peer that was banned before that op (by violation, error threshold or explicit command).",
+   "HashMap iteration order inside the behaviour is not controlled (invariants must hold for every order; state counts vary slightly between runs). A Connect emitted in the same step in which the peer becomes banned is not judged."),
+ "C28": ("pv-net2", "exploration", "schedule exploration with a harness-owned interface: BFS over delayed Sent/Recv deliveries + random schedules, specification-conformant simulated responder, per-connection wire-state oracle",
+   "The harness owns the logical schedule: emitted Sends go on a per-peer wire in emission order and are judged at emission time against the per-(peer, protocol) specification state; Sent confirmations are delivered FIFO at arbitrary later steps; a simulated responder answers with any reply the specification allows, only where it holds agency and after the initiator's message was confirmed. Exhaustive de-duplicated BFS of all schedules up to depth 6/8 after the handshake prefix (1 peer, versions 13 and 15/Leios) and random schedules up to 300 steps over 3 peers. Signatures distinguish emissions made while an earlier message is unconfirmed (the recorded root cause) from emissions made on confirmed state (would be a new defect).",
+   "The real TCP interface's futures are not exercised; wire order is assumed equal to emission order. Behaviour-internal queues are mirrored by counters in the fingerprint."),
+ "C29": ("pv-net2", "exploration", "proptest sequences of arbitrary interface events and commands; no-panic oracle with root-cause panic signatures",
+   "Sequences of up to 300 arbitrary interface events over 4 known peers and one unknown peer (duplicate Connected, Sent of never-emitted messages, Recv of any message of any protocol in any state, Error, Disconnected, Idle) interleaved with every external command are fed to InitiatorBehavior (default and tight promotion limits) and ResponderBehavior; afterwards a housekeeping pass and a full drain must still work. Any panic is caught and reported with a signature naming file, function and message.",
+   "Default configurations only (plus one tight promotion configuration); message payloads come from a recipe pool, not arbitrary bytes."),
 }
 
 NOT_YET = {}
